@@ -13,7 +13,7 @@ git apply $sub/patch.diff || { echo "patch does not apply"; exit 3; }
 /venv/bin/python $sub/demo.py > /tmp/seed_demo_patched.$$ 2>&1; rc_patched=$?
 echo "demo clean rc=$rc_clean patched rc=$rc_patched: $(tail -1 /tmp/seed_demo_patched.$$ | cut -c1-200)"
 if [ -z "$skip" ]; then
-  tests=$(/tmp/adv/run_tests.sh 2>&1); echo "$tests" | tail -6
+  tests=$(/verif/tools/run_tests.sh 2>&1); echo "$tests" | tail -6
   newf=$(echo "$tests" | sed -n '/^--- failures not/,/^--- end/p' | grep -c -E "^(FAILED|ERROR)")
 else newf=skipped; fi
 git checkout -q -- .
